@@ -10,7 +10,7 @@ KEEPSAFE_MS = 4000
 
 def mc_consts(**kw):
     c = dict(N=3, Q=1, IOB=1, KB=1, RT=1, SB=1, MaxConn=2, MaxChanges=1, Spool=True,
-             InitModes={"healthy"}, Modes={"absent", "healthy"}, FixRedoWaits=True, Mutant="")
+             InitModes={"healthy"}, Modes={"absent", "healthy"}, FixRedoWaits=True, AddrUpd=False, Mutant="")
     c.update(kw)
     return c
 
